@@ -28,6 +28,7 @@ func runC07(c *Ctx, pr *PropertyRun) {
 	pr.Assumptions = append(pr.Assumptions, "vcard.Card.Get is modelled as presence atom + field with an opaque value", "string predicates are independent atoms (their mutual implications are not needed by the statement)")
 	pr.Trusted = append(pr.Trusted, "golang.org/x/tools/go/ssa v0.29.0")
 
+	matchErrTrue := false
 	match := NewRule("C07", "C07.match", "decision tables of carddav.Match and of its per-filter and per-text-match helpers equal the reference evaluator of RFC 6352 §10.5 as quoted in the statement; each match type asks the right predicate with (value, text) in the right order (E2, compositional)")
 	match.Exhaustive = true
 	pr.Rules = append(pr.Rules, match)
@@ -38,9 +39,26 @@ func runC07(c *Ctx, pr *PropertyRun) {
 			// compositional: each layer against its own clause of the reference
 			match.Bounds = "layered: Match over <= 3 prop-filters (each true/false/error); per filter: presence x is-not-defined x inner test x <= 3 text-matches (each true/false/error); per text-match: match type x negate x predicate"
 			match.Note("layers: %s -> %s -> %s", fnKey(fn), fnKey(pfFn), fnKey(tmFn))
-			for _, spec := range []DTXSpec{c07LayerMatch(c, fn, pfFn, 3), c07LayerProp(c, pfFn, tmFn, 3), c07LayerText(c, tmFn)} {
+			// bottom-up: what a helper's own table shows it can return is the
+			// domain of its atom in the layer above
+			errTrue := false
+			for li := 0; li < 3; li++ {
+				var spec DTXSpec
+				switch li {
+				case 0:
+					spec = c07LayerText(c, tmFn)
+				case 1:
+					spec = c07LayerProp(c, pfFn, tmFn, 3, errTrue)
+				case 2:
+					spec = c07LayerMatch(c, fn, pfFn, 3, errTrue)
+				}
+				spec = acceptErrTrue(spec)
 				res := runDTX(c, spec)
 				reportDTX(c, match, spec, res, spec.Name)
+				errTrue = yieldsErrTrue(res)
+				if li == 2 {
+					matchErrTrue = errTrue
+				}
 				match.Role("decision-table")
 				match.Count("rows_"+spec.Name, res.Runs)
 				if res.Runs < 6 {
@@ -69,7 +87,7 @@ func runC07(c *Ctx, pr *PropertyRun) {
 	filt.Bounds = fmt.Sprintf("objects <= %d, Limit in [-1, %d]", nl, nl+1)
 	pr.Rules = append(pr.Rules, filt)
 	if fn := p.MustFunc(filt, pkgCarddav, "Filter"); fn != nil {
-		spec := c07FilterSpec(c, fn, nl)
+		spec := c07FilterSpec(c, fn, nl, matchErrTrue)
 		res := runDTX(c, spec)
 		reportDTX(c, filt, spec, res, "filter")
 		filt.Role("decision-table")
@@ -357,7 +375,7 @@ func c07MatchSpec(c *Ctx, fn *ssa.Function, nf, nt int) DTXSpec {
 	}
 }
 
-func c07FilterSpec(c *Ctx, fn *ssa.Function, nl int) DTXSpec {
+func c07FilterSpec(c *Ctx, fn *ssa.Function, nl int, errTrue bool) DTXSpec {
 	p := c.P
 	matchFn := p.Func(pkgCarddav, "Match")
 	projFn := p.Func(pkgCarddav, "filterProperties")
@@ -399,13 +417,7 @@ func c07FilterSpec(c *Ctx, fn *ssa.Function, nl int) DTXSpec {
 				if matchFn != nil && name == fullFnName(matchFn) {
 					id := idxOf(args[1])
 					in.effect("Match", site.Pos(), kStr(id))
-					switch in.chooseLabeled("match("+id+")", []string{"false", "true", "error"}) {
-					case 0:
-						return Tuple{[]Val{kFalse, kNil}}, true
-					case 1:
-						return Tuple{[]Val{kTrue, kNil}}, true
-					}
-					return Tuple{[]Val{kFalse, in.mkErr(&ErrObj{Kind: "ext", Msg: kStr("match error")})}}, true
+					return helperValued(in, "match("+id+")", errTrue), true
 				}
 				if projFn != nil && name == fullFnName(projFn) {
 					id := idxOf(args[1])
@@ -449,7 +461,7 @@ func c07FilterSpec(c *Ctx, fn *ssa.Function, nl int) DTXSpec {
 			var out []string
 			for i := 0; i < n; i++ {
 				id := fmt.Sprintf("aos[%d].Path", i)
-				switch env.ch.choose("match("+id+")", 3, func(i int) string { return []string{"false", "true", "error"}[i] }) {
+				switch helperOutcome(env, "match("+id+")") {
 				case 2:
 					return []string{"error"}, true
 				case 1:
@@ -635,14 +647,65 @@ func boolErrObserve(in *Interp, res Val, pan *panicOutcome) string {
 	}
 	t := res.(Tuple)
 	if k, ok := t.E[1].(Konst); !ok || k.V != nil {
+		// an error that comes with `true`: callers that look at the result
+		// first take it for a match — the layers above must be told
+		if b, isK := t.E[0].(Konst); isK && b.V != nil && b.V.String() == "true" {
+			return "error+true"
+		}
 		return "error"
 	}
 	return describeVal(in, t.E[0])
 }
 
+// helperOutcome reads a helper atom in an oracle: the optional fourth value
+// (an error that comes with true) is an error.
+func helperOutcome(env *OracleEnv, key string) int {
+	v := env.ch.choose(key, 3, func(i int) string { return c07Names[i] })
+	if v > 2 {
+		return 2
+	}
+	return v
+}
+
+// acceptErrTrue: for the statement, an error is an error whatever the boolean.
+func acceptErrTrue(spec DTXSpec) DTXSpec {
+	if spec.Oracle != nil {
+		base := spec.Oracle
+		spec.Oracle = func(env *OracleEnv) ([]string, bool) {
+			a, ok := base(env)
+			for _, x := range a {
+				if x == "error" {
+					return append(append([]string{}, a...), "error+true"), ok
+				}
+			}
+			return a, ok
+		}
+	}
+	return spec
+}
+
+func yieldsErrTrue(res *DTXResult) bool {
+	for _, l := range res.Leaves {
+		if l.Outcome == "error+true" {
+			return true
+		}
+	}
+	return false
+}
+
 // threeValued models a helper as an atom with outcomes false/true/error.
-func threeValued(in *Interp, key string) Val {
-	switch in.chooseLabeled(key, c07Names) {
+func threeValued(in *Interp, key string) Val { return helperValued(in, key, false) }
+
+// helperValued: when the helper's own table showed that it can return an
+// error together with true, that outcome is part of the atom's domain.
+func helperValued(in *Interp, key string, errTrue bool) Val {
+	names := c07Names
+	if errTrue {
+		names = append(append([]string{}, c07Names...), "error+true")
+	}
+	switch in.chooseLabeled(key, names) {
+	case 3:
+		return Tuple{[]Val{kTrue, in.mkErr(&ErrObj{Kind: "ext", Msg: kStr("helper error")})}}
 	case c07False:
 		return Tuple{[]Val{kFalse, kNil}}
 	case c07True:
@@ -651,7 +714,7 @@ func threeValued(in *Interp, key string) Val {
 	return Tuple{[]Val{kFalse, in.mkErr(&ErrObj{Kind: "ext", Msg: kStr("helper error")})}}
 }
 
-func c07LayerMatch(c *Ctx, fn, pfFn *ssa.Function, nf int) DTXSpec {
+func c07LayerMatch(c *Ctx, fn, pfFn *ssa.Function, nf int, errTrue bool) DTXSpec {
 	return DTXSpec{
 		Name: "Match", Entry: fn,
 		Sym: SymSpec{MaxLen: func(string, types.Type) int { return nf }, NonNil: func(k string) bool { return k == "ao" }},
@@ -661,7 +724,7 @@ func c07LayerMatch(c *Ctx, fn, pfFn *ssa.Function, nf int) DTXSpec {
 					s := args[0].(Struct)
 					id := keyOf(s.F[0].Get()) // the filter's Name symbol identifies it
 					in.effect("propfilter", site.Pos(), kStr(id))
-					return threeValued(in, "pf("+id+")"), true
+					return helperValued(in, "pf("+id+")", errTrue), true
 				}
 				return nil, false
 			})
@@ -676,14 +739,14 @@ func c07LayerMatch(c *Ctx, fn, pfFn *ssa.Function, nf int) DTXSpec {
 			}
 			n := env.Len("query.PropFilters", nf)
 			res, strict := c07Combine(c07TestOf(env, S("query.FilterTest")), n, func(i int) int {
-				return env.ch.choose(fmt.Sprintf("pf(query.PropFilters[%d].Name)", i), 3, func(i int) string { return c07Names[i] })
+				return helperOutcome(env, fmt.Sprintf("pf(query.PropFilters[%d].Name)", i))
 			})
 			return c07Allowed(res, strict), true
 		},
 	}
 }
 
-func c07LayerProp(c *Ctx, pfFn, tmFn *ssa.Function, nt int) DTXSpec {
+func c07LayerProp(c *Ctx, pfFn, tmFn *ssa.Function, nt int, errTrue bool) DTXSpec {
 	return DTXSpec{
 		Name: "matchPropFilter", Entry: pfFn,
 		Sym: SymSpec{MaxLen: func(string, types.Type) int { return nt }, NonNil: func(k string) bool { return k == "ao" }},
@@ -693,7 +756,7 @@ func c07LayerProp(c *Ctx, pfFn, tmFn *ssa.Function, nt int) DTXSpec {
 					s := args[0].(Struct)
 					id := keyOf(s.F[0].Get()) // the Text symbol identifies the text-match
 					in.effect("textmatch", site.Pos(), kStr(id), args[1])
-					return threeValued(in, "tm("+id+")"), true
+					return helperValued(in, "tm("+id+")", errTrue), true
 				}
 				return nil, false
 			})
@@ -718,7 +781,7 @@ func c07LayerProp(c *Ctx, pfFn, tmFn *ssa.Function, nt int) DTXSpec {
 					allowed = []string{"true"}
 				} else {
 					res, strict := c07Combine(c07TestOf(env, S("prop.Test")), m, func(j int) int {
-						return env.ch.choose(fmt.Sprintf("tm(prop.TextMatches[%d].Text)", j), 3, func(i int) string { return c07Names[i] })
+						return helperOutcome(env, fmt.Sprintf("tm(prop.TextMatches[%d].Text)", j))
 					})
 					allowed = c07Allowed(res, strict)
 				}
@@ -726,7 +789,7 @@ func c07LayerProp(c *Ctx, pfFn, tmFn *ssa.Function, nt int) DTXSpec {
 			got := boolErrObserve(obs.In, obs.Ret, obs.Panic)
 			ok := false
 			for _, a := range allowed {
-				if a == got {
+				if a == got || (a == "error" && got == "error+true") {
 					ok = true
 				}
 			}
